@@ -171,7 +171,14 @@ def unit_vote(U):
         U.prove("C09.choose.empty#p%d" % p.index, "no peeked feature ==> the default dialect", [], z3.BoolVal(p.kind == "return" and p.value == constants.dialect), {})
 
 
-UNITS = [("line.kv", _unit_line(("k=v", 'k="v"'))), ("line.sp", _unit_line(('k "v"', "k v"))), ("vote", unit_vote)]
+def unit_window(U):
+    """the lines the vote sees: for Feature-iterable input _FeatureIterator.peek(checklines) hands the first
+    min(checklines + 1, len) items to inference and leaves the source intact (same obligations as C13, shared)"""
+    from props import C13
+    C13.unit_peek(U, prefix="C09.window")
+
+
+UNITS = [("line.kv", _unit_line(("k=v", 'k="v"'))), ("line.sp", _unit_line(('k "v"', "k v"))), ("vote", unit_vote), ("window", unit_window)]
 try:
     from standins import C09 as _S
     UNITS = UNITS + list(_S.UNITS)
